@@ -316,7 +316,8 @@ fn fe_probe(cfg: &Cfg, f: &mut vhost::vhost_user::Frontend, peer: &std::os::unix
 
 fn fe_setup(st: &FeState, offered_pf: u64) -> (vhost::vhost_user::Frontend, std::os::unix::net::UnixStream) {
     let (mut f, peer) = util::raw_frontend(8);
-    let offered = if st.offered_virtio_pf { spec::VIRTIO_F_PROTOCOL_FEATURES | 1 } else { 1 };
+    // (not offered: every other bit of the feature word is, also the ones above bit 30)
+    let offered = if st.offered_virtio_pf { spec::VIRTIO_F_PROTOCOL_FEATURES | 1 } else { !spec::VIRTIO_F_PROTOCOL_FEATURES };
     preload(&peer, fe::GET_FEATURES, &spec::p_u64(offered), None);
     let _ = f.get_features();
     let ack = if st.acked_virtio_pf { spec::VIRTIO_F_PROTOCOL_FEATURES | 1 } else { 1 };
